@@ -2,6 +2,7 @@
   C02 — no look-ahead: outputs up to time t never depend on data stamped after t.
 -/
 import TradingVerif.Props.C04
+import TradingVerif.Lemmas.IntInst
 set_option linter.unusedSectionVars false
 set_option linter.unusedVariables false
 namespace TV
@@ -151,5 +152,520 @@ theorem envStep_congr (pw : α → α → α) (lg : α → α) (cfg : EnvCfg α)
           rw [this]
           rfl
 
+/-! ### the whole episode
+
+`SameButPending s s'`: the two states agree on everything a caller can observe or that the account holds —
+broker (positions, cash, track record), clock, done flag, action queue, episode steps, cursor, observer log
+— and may differ only in the batches *pre-fetched for the next timestep* (which are dated after the
+timestep the episode has landed on). -/
+
+def SameButPending (s s' : EnvState α) : Prop :=
+  ({ s with pendLat := [], pendNon := [] } : EnvState α) = { s' with pendLat := [], pendNon := [] }
+
+theorem SameButPending.refl (s : EnvState α) : SameButPending s s := rfl
+
+theorem SameButPending.fields {s s' : EnvState α} (h : SameButPending s s') :
+    s.broker = s'.broker ∧ s.now = s'.now ∧ s.lastEvent = s'.lastEvent ∧ s.done = s'.done ∧
+    s.queue = s'.queue ∧ s.steps = s'.steps ∧ s.cursor = s'.cursor ∧ s.log = s'.log ∧
+    s.contractClock = s'.contractClock := by
+  unfold SameButPending at h
+  cases s; cases s'
+  simp only [EnvState.mk.injEq] at h
+  obtain ⟨h1, h2, h3, h4, h5, _, _, h8, h9, h10, h11⟩ := h
+  exact ⟨h1, h2, h3, h4, h5, h8, h9, h10, h11⟩
+
+theorem SameButPending.of_fields {s s' : EnvState α}
+    (h : s.broker = s'.broker ∧ s.now = s'.now ∧ s.lastEvent = s'.lastEvent ∧ s.done = s'.done ∧
+      s.queue = s'.queue ∧ s.steps = s'.steps ∧ s.cursor = s'.cursor ∧ s.log = s'.log ∧
+      s.contractClock = s'.contractClock) : SameButPending s s' := by
+  unfold SameButPending
+  cases s; cases s'
+  simp only at h
+  obtain ⟨h1, h2, h3, h4, h5, h8, h9, h10, h11⟩ := h
+  simp [h1, h2, h3, h4, h5, h8, h9, h10, h11]
+
+/-- a notification never reads the pre-fetched batches -/
+theorem notify_mod_pending (s s' : EnvState α) (h : SameButPending s s') (k : LogKind) (t : Option Time)
+    (m : Option (MEvent α)) : SameButPending (notify s k t m) (notify s' k t m) := by
+  obtain ⟨h1, h2, h3, h4, h5, h8, h9, h10, h11⟩ := h.fields
+  unfold SameButPending notify isNewDate dispatch
+  cases s; cases s'
+  simp only at h1 h2 h3 h4 h5 h8 h9 h10 h11
+  subst h1 h2 h3 h4 h5 h8 h9 h10 h11
+  simp only
+  split_ifs <;> rfl
+
+/-- loading the next batches from a different stream changes the pre-fetched batches only -/
+theorem processNonlatent_mod_pending (cfg : EnvCfg α) (tx' : TxCfg (Payload α)) (s : EnvState α) :
+    SameButPending (processNonlatent { cfg with tx := tx' } s) (processNonlatent cfg s) := by
+  unfold processNonlatent SameButPending
+  simp only
+  cases (List.foldl notifyEvent s s.pendNon).steps[(List.foldl notifyEvent s s.pendNon).cursor]? with
+  | none => rfl
+  | some cur => simp only
+
+theorem processNonlatent_congr2 (cfg : EnvCfg α) (tx' : TxCfg (Payload α)) (s : EnvState α)
+    (h : ∀ cur, s.steps[s.cursor]? = some cur →
+      (if s.cursor = 0 then tx'.firstBatch cur else tx'.batch cur) =
+      (if s.cursor = 0 then cfg.tx.firstBatch cur else cfg.tx.batch cur)) :
+    processNonlatent { cfg with tx := tx' } s = processNonlatent cfg s := by
+  obtain ⟨_, _, i3, i4, _⟩ := foldl_notifyEvent s.pendNon s
+  unfold processNonlatent
+  simp only
+  cases hcur : (List.foldl notifyEvent s s.pendNon).steps[(List.foldl notifyEvent s s.pendNon).cursor]? with
+  | none => rfl
+  | some cur =>
+      have hcur' : s.steps[s.cursor]? = some cur := by rw [← i3, ← i4]; exact hcur
+      have := h cur hcur'
+      rw [← i4] at this
+      simp only [this]
+
+theorem processNonlatent_frame (cfg : EnvCfg α) (s : EnvState α) :
+    (processNonlatent cfg s).steps = s.steps ∧ s.cursor ≤ (processNonlatent cfg s).cursor ∧
+    (processNonlatent cfg s).cursor ≤ s.cursor + 1 ∧ (s.done = true → (processNonlatent cfg s).done = true) ∧
+    (s.steps[s.cursor]? = none → (processNonlatent cfg s).done = true) := by
+  obtain ⟨_, _, i3, i4, _, _, i7, _⟩ := foldl_notifyEvent s.pendNon s
+  unfold processNonlatent
+  simp only
+  cases hcur : (List.foldl notifyEvent s s.pendNon).steps[(List.foldl notifyEvent s s.pendNon).cursor]? with
+  | none =>
+      simp only
+      exact ⟨i3, by rw [i4], by rw [i4]; omega, fun _ => trivial, fun _ => trivial⟩
+  | some cur =>
+      have hcur' : s.steps[s.cursor]? = some cur := by rw [← i3, ← i4]; exact hcur
+      simp only
+      refine ⟨i3, by rw [i4]; omega, by rw [i4], fun h => by rw [i7]; exact h, fun h => ?_⟩
+      rw [hcur'] at h; cases h
+
+/-- the closing notifications of `step` (step, then done if the episode is over) -/
+def finishNotify (s : EnvState α) : EnvState α :=
+  let s5 := notify s .step s.now none
+  if s5.done then notify s5 .done s5.now none else s5
+
+/-- `stepFinish` after the non-latent batch has been delivered and the next one fetched -/
+def finishFrom (lg : α → α) (cfg : EnvCfg α) (s3 : EnvState α) (traded : Bool) :
+    EnvState α × Except Err (StepOut α) :=
+  match rewardOf lg cfg s3.broker with
+  | (b4, .error e) => ({ s3 with broker := b4 }, .error e)
+  | (b4, .ok r) =>
+    (finishNotify { s3 with broker := b4 },
+     .ok { reward := r, done := (finishNotify { s3 with broker := b4 }).done, traded := traded })
+
+theorem stepFinish_eq (lg : α → α) (cfg : EnvCfg α) (s2 : EnvState α) (tr : Bool) :
+    stepFinish lg cfg s2 tr = finishFrom lg cfg (processNonlatent cfg s2) tr := rfl
+
+theorem stepFinish_eq' (lg : α → α) (cfg : EnvCfg α) (tx' : TxCfg (Payload α)) (s2 : EnvState α) (tr : Bool) :
+    stepFinish lg { cfg with tx := tx' } s2 tr = finishFrom lg cfg (processNonlatent { cfg with tx := tx' } s2) tr :=
+  rfl
+
+theorem finishNotify_mod_pending (s s' : EnvState α) (h : SameButPending s s') :
+    SameButPending (finishNotify s) (finishNotify s') := by
+  have h5 := notify_mod_pending s s' h .step s'.now none
+  unfold finishNotify
+  simp only
+  rw [h.fields.2.1, h5.fields.2.2.2.1]
+  split_ifs
+  · rw [h5.fields.2.1]
+    exact notify_mod_pending _ _ h5 .done _ none
+  · exact h5
+
+theorem finishNotify_frame (s : EnvState α) :
+    (finishNotify s).steps = s.steps ∧ (finishNotify s).cursor = s.cursor := by
+  have n5 := notify_frame s .step s.now none
+  unfold finishNotify
+  simp only
+  split_ifs
+  · have n6 := notify_frame (notify s .step s.now none) .done (notify s .step s.now none).now none
+    exact ⟨n6.1.trans n5.1, n6.2.1.trans n5.2.1⟩
+  · exact ⟨n5.1, n5.2.1⟩
+
+theorem finishFrom_mod_pending (lg : α → α) (cfg : EnvCfg α) (s3' s3 : EnvState α) (h : SameButPending s3' s3)
+    (tr : Bool) :
+    (finishFrom lg cfg s3' tr).2 = (finishFrom lg cfg s3 tr).2 ∧
+    SameButPending (finishFrom lg cfg s3' tr).1 (finishFrom lg cfg s3 tr).1 := by
+  obtain ⟨h1, h2, h3, h4, h5, h8, h9, h10, h11⟩ := h.fields
+  unfold finishFrom
+  rw [h1]
+  cases rewardOf lg cfg s3.broker with
+  | mk b4 res =>
+    have hs : SameButPending ({ s3' with broker := b4 } : EnvState α) { s3 with broker := b4 } :=
+      SameButPending.of_fields ⟨rfl, h2, h3, h4, h5, h8, h9, h10, h11⟩
+    cases res with
+    | error e => exact ⟨rfl, hs⟩
+    | ok r =>
+        have hf := finishNotify_mod_pending _ _ hs
+        have hd : (finishNotify ({ s3' with broker := b4 } : EnvState α)).done =
+            (finishNotify ({ s3 with broker := b4 } : EnvState α)).done := hf.fields.2.2.2.1
+        exact ⟨congrArg (fun d => (Except.ok ({ reward := r, done := d, traded := tr } : StepOut α) :
+          Except Err (StepOut α))) hd, hf⟩
+
+theorem finishFrom_frame (lg : α → α) (cfg : EnvCfg α) (s3 : EnvState α) (tr : Bool) :
+    (finishFrom lg cfg s3 tr).1.steps = s3.steps ∧ (finishFrom lg cfg s3 tr).1.cursor = s3.cursor := by
+  unfold finishFrom
+  cases rewardOf lg cfg s3.broker with
+  | mk b4 res =>
+    cases res with
+    | error e => exact ⟨rfl, rfl⟩
+    | ok r => exact finishNotify_frame _
+
+/-- **The last step before the cut**: whatever stream the *next* batches are fetched from, `step` returns the
+    same reward / done flag / trade flag (or the same error) and leaves the same state up to those batches -/
+theorem stepFinish_mod_pending (lg : α → α) (cfg : EnvCfg α) (tx' : TxCfg (Payload α)) (s2 : EnvState α)
+    (tr : Bool) :
+    (stepFinish lg { cfg with tx := tx' } s2 tr).2 = (stepFinish lg cfg s2 tr).2 ∧
+    SameButPending (stepFinish lg { cfg with tx := tx' } s2 tr).1 (stepFinish lg cfg s2 tr).1 := by
+  rw [stepFinish_eq, stepFinish_eq']
+  exact finishFrom_mod_pending lg cfg _ _ (processNonlatent_mod_pending cfg tx' s2) tr
+
+theorem envStep_mod_pending (pw : α → α → α) (lg : α → α) (cfg : EnvCfg α) (tx' : TxCfg (Payload α))
+    (s : EnvState α) (a : Action α) :
+    (envStep pw lg { cfg with tx := tx' } s a).2 = (envStep pw lg cfg s a).2 ∧
+    SameButPending (envStep pw lg { cfg with tx := tx' } s a).1 (envStep pw lg cfg s a).1 := by
+  unfold envStep
+  split_ifs
+  · exact ⟨rfl, SameButPending.refl _⟩
+  · have hx : stepExec pw { cfg with tx := tx' } (stepPre s a).1 (stepPre s a).2
+        = stepExec pw cfg (stepPre s a).1 (stepPre s a).2 := rfl
+    rw [hx]
+    cases hres : stepExec pw cfg (stepPre s a).1 (stepPre s a).2 with
+    | mk s2 res =>
+      cases res with
+      | error e => exact ⟨rfl, SameButPending.refl _⟩
+      | ok tr => exact stepFinish_mod_pending lg cfg tx' s2 tr
+
+/-- `step` keeps the episode's steps and advances the cursor by at most one -/
+theorem envStep_frame (pw : α → α → α) (lg : α → α) (cfg : EnvCfg α) (s : EnvState α) (a : Action α) :
+    (envStep pw lg cfg s a).1.steps = s.steps ∧ s.cursor ≤ (envStep pw lg cfg s a).1.cursor ∧
+    (envStep pw lg cfg s a).1.cursor ≤ s.cursor + 1 := by
+  unfold envStep
+  split_ifs
+  · exact ⟨rfl, le_refl _, Nat.le_succ _⟩
+  · obtain ⟨_, _, p3, p4, _, _⟩ := stepPre_spec s a
+    obtain ⟨_, x2, x3, _⟩ := stepExec_spec pw cfg (stepPre s a).1 (stepPre s a).2
+    cases hres : stepExec pw cfg (stepPre s a).1 (stepPre s a).2 with
+    | mk s2 res =>
+      rw [hres] at x2 x3
+      simp only at x2 x3
+      cases res with
+      | error e => exact ⟨by rw [x2, p3], by rw [x3, p4], by rw [x3, p4]; omega⟩
+      | ok tr =>
+          simp only
+          obtain ⟨f1, f2, f3, _, _⟩ := processNonlatent_frame cfg s2
+          rw [stepFinish_eq]
+          obtain ⟨g1, g2⟩ := finishFrom_frame lg cfg (processNonlatent cfg s2) tr
+          rw [g1, g2]
+          exact ⟨f1.trans (x2.trans p3), by rw [← p4, ← x3]; exact f2, by rw [← p4, ← x3]; exact f3⟩
+
+/-- a sequence of `step` calls: the results returned, and the state left behind -/
+def runEnv (pw : α → α → α) (lg : α → α) (cfg : EnvCfg α) :
+    EnvState α → List (Action α) → List (Except Err (StepOut α)) × EnvState α
+  | s, [] => ([], s)
+  | s, a :: rest =>
+      ((envStep pw lg cfg s a).2 :: (runEnv pw lg cfg (envStep pw lg cfg s a).1 rest).1,
+       (runEnv pw lg cfg (envStep pw lg cfg s a).1 rest).2)
+
+theorem runEnv_cons (pw : α → α → α) (lg : α → α) (cfg : EnvCfg α) (s : EnvState α) (a : Action α)
+    (rest : List (Action α)) :
+    runEnv pw lg cfg s (a :: rest) =
+      ((envStep pw lg cfg s a).2 :: (runEnv pw lg cfg (envStep pw lg cfg s a).1 rest).1,
+       (runEnv pw lg cfg (envStep pw lg cfg s a).1 rest).2) := rfl
+
+/-- **No look-ahead, any number of steps from a common state.** If the two streams yield the same batches for
+    the episode's timesteps number `0..n`, then any run of steps that lands no later than timestep number
+    `n` returns the same results and leaves the same state (up to the batches pre-fetched for timestep
+    `n + 1`). -/
+theorem run_no_lookahead (pw : α → α → α) (lg : α → α) (cfg : EnvCfg α) (tx' : TxCfg (Payload α)) (n : Nat)
+    (acts : List (Action α)) (s : EnvState α) (hc : s.done = false → s.cursor ≠ 0)
+    (hlen : s.cursor + acts.length ≤ n + 2)
+    (hb : ∀ i, i ≤ n → ∀ cur, s.steps[i]? = some cur →
+      tx'.latent cur = cfg.tx.latent cur ∧ tx'.nonlatent cur = cfg.tx.nonlatent cur) :
+    (runEnv pw lg { cfg with tx := tx' } s acts).1 = (runEnv pw lg cfg s acts).1 ∧
+    SameButPending (runEnv pw lg { cfg with tx := tx' } s acts).2 (runEnv pw lg cfg s acts).2 := by
+  induction acts generalizing s with
+  | nil => exact ⟨rfl, SameButPending.refl _⟩
+  | cons a rest ih =>
+      by_cases hrest : rest = []
+      · subst hrest
+        rw [runEnv_cons, runEnv_cons]
+        obtain ⟨h1, h2⟩ := envStep_mod_pending pw lg cfg tx' s a
+        exact ⟨by simp only [runEnv, h1], h2⟩
+      · have hpos : 1 ≤ rest.length := by
+          cases rest with
+          | nil => exact absurd rfl hrest
+          | cons _ _ => simp
+        simp only [List.length_cons] at hlen
+        have heq : envStep pw lg { cfg with tx := tx' } s a = envStep pw lg cfg s a := by
+          by_cases hd : s.done = true
+          · unfold envStep; simp only [hd, if_true]
+          · have hd' : s.done = false := by simpa using hd
+            apply envStep_congr pw lg cfg tx' s a (hc hd')
+            intro cur hcur
+            exact hb s.cursor (by omega) cur hcur
+        obtain ⟨f1, f2, f3⟩ := envStep_frame pw lg cfg s a
+        have hrec := ih (envStep pw lg cfg s a).1
+          (by
+            intro hd1
+            by_cases hd : s.done = true
+            · exfalso
+              have : (envStep pw lg cfg s a).1 = s := by unfold envStep; simp only [hd, if_true]
+              rw [this, hd] at hd1; cases hd1
+            · have hd' : s.done = false := by simpa using hd
+              have := hc hd'
+              omega)
+          (by omega)
+          (by rw [f1]; exact hb)
+        rw [runEnv_cons, runEnv_cons, heq]
+        exact ⟨by rw [hrec.1], hrec.2⟩
+
+/-- **`reset` does not look ahead**: with the same episode steps and the same first batch (history up to the
+    first timestep), the state after `reset` is the same up to the batches pre-fetched for the second
+    timestep — and the same altogether when those agree too. -/
+theorem reset_no_lookahead (cfg : EnvCfg α) (tx' : TxCfg (Payload α)) (lo hi : Time) (start : Nat)
+    (clock : Option Time)
+    (hsteps : tx'.episodeSteps lo hi cfg.episodeLen start = cfg.tx.episodeSteps lo hi cfg.episodeLen start)
+    (hfirst : ∀ cur, (cfg.tx.episodeSteps lo hi cfg.episodeLen start)[0]? = some cur →
+      tx'.firstBatch cur = cfg.tx.firstBatch cur) :
+    SameButPending (envReset { cfg with tx := tx' } lo hi start clock) (envReset cfg lo hi start clock) ∧
+    ((∀ cur, (cfg.tx.episodeSteps lo hi cfg.episodeLen start)[1]? = some cur →
+        tx'.latent cur = cfg.tx.latent cur ∧ tx'.nonlatent cur = cfg.tx.nonlatent cur) →
+      envReset { cfg with tx := tx' } lo hi start clock = envReset cfg lo hi start clock) := by
+  unfold envReset
+  simp only [hsteps]
+  -- the tail of `reset`, as a function of the state after the first fetch
+  have tailP : ∀ s1 : EnvState α,
+      SameButPending
+        (let s2 := processNonlatent { cfg with tx := tx' } (processLatent s1)
+         let s3 := notify s2 .reset s2.now none
+         if s3.done then notify s3 .done s3.now none else s3)
+        (let s2 := processNonlatent cfg (processLatent s1)
+         let s3 := notify s2 .reset s2.now none
+         if s3.done then notify s3 .done s3.now none else s3) := by
+    intro s1
+    have hp := processNonlatent_mod_pending cfg tx' (processLatent s1)
+    have h3 := notify_mod_pending _ _ hp .reset (processNonlatent cfg (processLatent s1)).now none
+    simp only
+    rw [hp.fields.2.1, h3.fields.2.2.2.1]
+    split_ifs
+    · have h4 := notify_mod_pending _ _ h3 .done
+        (notify (processNonlatent cfg (processLatent s1)) .reset (processNonlatent cfg (processLatent s1)).now none).now none
+      rw [h3.fields.2.1]; exact h4
+    · exact h3
+  have tailEq : ∀ s1 : EnvState α,
+      (∀ cur, s1.steps[s1.cursor]? = some cur →
+        (if s1.cursor = 0 then tx'.firstBatch cur else tx'.batch cur) =
+        (if s1.cursor = 0 then cfg.tx.firstBatch cur else cfg.tx.batch cur)) →
+      (let s2 := processNonlatent { cfg with tx := tx' } (processLatent s1)
+       let s3 := notify s2 .reset s2.now none
+       if s3.done then notify s3 .done s3.now none else s3) =
+      (let s2 := processNonlatent cfg (processLatent s1)
+       let s3 := notify s2 .reset s2.now none
+       if s3.done then notify s3 .done s3.now none else s3) := by
+    intro s1 h
+    obtain ⟨_, _, l3, l4, _⟩ := processLatent_spec s1
+    rw [processNonlatent_congr2 cfg tx' (processLatent s1) (by rw [l3, l4]; exact h)]
+  cases h0 : (cfg.tx.episodeSteps lo hi cfg.episodeLen start)[0]? with
+  | none =>
+      simp only
+      refine ⟨tailP _, fun _ => tailEq _ ?_⟩
+      intro cur hcur
+      simp only at hcur
+      rw [h0] at hcur; cases hcur
+  | some cur0 =>
+      simp only [hfirst cur0 h0]
+      refine ⟨tailP _, fun h1 => tailEq _ ?_⟩
+      intro cur hcur
+      simp only at hcur ⊢
+      obtain ⟨e1, e2⟩ := h1 cur hcur
+      simp only [TxCfg.batch, e1, e2, if_false, Nat.one_ne_zero]
+
+/-- where `reset` leaves the cursor -/
+theorem reset_cursor (cfg : EnvCfg α) (lo hi : Time) (start : Nat) (clock : Option Time) :
+    (envReset cfg lo hi start clock).steps = cfg.tx.episodeSteps lo hi cfg.episodeLen start ∧
+    (envReset cfg lo hi start clock).cursor ≤ 2 ∧
+    ((envReset cfg lo hi start clock).done = false → (envReset cfg lo hi start clock).cursor ≠ 0) := by
+  have tail : ∀ s1 : EnvState α,
+      (let s2 := processNonlatent cfg (processLatent s1)
+       let s3 := notify s2 .reset s2.now none
+       if s3.done then notify s3 .done s3.now none else s3).steps = s1.steps ∧
+      s1.cursor ≤ (let s2 := processNonlatent cfg (processLatent s1)
+       let s3 := notify s2 .reset s2.now none
+       if s3.done then notify s3 .done s3.now none else s3).cursor ∧
+      (let s2 := processNonlatent cfg (processLatent s1)
+       let s3 := notify s2 .reset s2.now none
+       if s3.done then notify s3 .done s3.now none else s3).cursor ≤ s1.cursor + 1 ∧
+      (s1.done = true → (let s2 := processNonlatent cfg (processLatent s1)
+       let s3 := notify s2 .reset s2.now none
+       if s3.done then notify s3 .done s3.now none else s3).done = true) := by
+    intro s1
+    obtain ⟨_, _, l3, l4, _, _, l7, _⟩ := processLatent_spec s1
+    obtain ⟨f1, f2, f3, f4, _⟩ := processNonlatent_frame cfg (processLatent s1)
+    have n3 := notify_frame (processNonlatent cfg (processLatent s1)) .reset
+      (processNonlatent cfg (processLatent s1)).now none
+    simp only
+    split_ifs with hd
+    · have n4 := notify_frame (notify (processNonlatent cfg (processLatent s1)) .reset
+        (processNonlatent cfg (processLatent s1)).now none) .done
+        (notify (processNonlatent cfg (processLatent s1)) .reset (processNonlatent cfg (processLatent s1)).now none).now none
+      refine ⟨by rw [n4.1, n3.1, f1, l3], by rw [n4.2.1, n3.2.1, ← l4]; exact f2,
+        by rw [n4.2.1, n3.2.1, ← l4]; exact f3, fun _ => ?_⟩
+      rw [n4.2.2.2.2.1]; exact hd
+    · refine ⟨by rw [n3.1, f1, l3], by rw [n3.2.1, ← l4]; exact f2, by rw [n3.2.1, ← l4]; exact f3, fun h1 => ?_⟩
+      rw [n3.2.2.2.2.1]
+      exact f4 (by rw [l7]; exact h1)
+  unfold envReset
+  simp only
+  cases h0 : (cfg.tx.episodeSteps lo hi cfg.episodeLen start)[0]? with
+  | none =>
+      simp only
+      obtain ⟨t1, t2, t3, t4⟩ := tail
+        ({ broker := _, queue := List.replicate cfg.delay (nullAction cfg.space),
+           steps := cfg.tx.episodeSteps lo hi cfg.episodeLen start, contractClock := clock, done := true } : EnvState α)
+      simp only at t1 t2 t3 t4
+      refine ⟨t1, by omega, fun hd => ?_⟩
+      rw [t4 trivial] at hd; cases hd
+  | some cur0 =>
+      simp only
+      obtain ⟨t1, t2, t3, t4⟩ := tail
+        ({ broker := _, queue := List.replicate cfg.delay (nullAction cfg.space),
+           steps := cfg.tx.episodeSteps lo hi cfg.episodeLen start, contractClock := clock,
+           pendLat := (cfg.tx.firstBatch cur0).1, pendNon := (cfg.tx.firstBatch cur0).2, cursor := 1 } : EnvState α)
+      simp only at t1 t2 t3 t4
+      exact ⟨t1, by omega, fun _ => by omega⟩
+
+/-- **No look-ahead over a whole episode.** Two event streams that give the episode the same timesteps, the
+    same history up to the first timestep, and the same batches for the episode's timesteps number `0..n`:
+    `reset` and any `n` or fewer `step` calls (with any actions) return identical results — rewards, done
+    flags, trade flags, errors — and leave identical states (broker with positions, cash and track record;
+    clock; observer log with every delivered observation) up to the batches pre-fetched for timestep
+    `n + 1`. -/
+theorem episode_no_lookahead (pw : α → α → α) (lg : α → α) (cfg : EnvCfg α) (tx' : TxCfg (Payload α))
+    (lo hi : Time) (start : Nat) (clock : Option Time) (n : Nat) (acts : List (Action α))
+    (hlen : acts.length ≤ n)
+    (hsteps : tx'.episodeSteps lo hi cfg.episodeLen start = cfg.tx.episodeSteps lo hi cfg.episodeLen start)
+    (hfirst : ∀ cur, (cfg.tx.episodeSteps lo hi cfg.episodeLen start)[0]? = some cur →
+      tx'.firstBatch cur = cfg.tx.firstBatch cur)
+    (hb : ∀ i, i ≤ n → ∀ cur, (cfg.tx.episodeSteps lo hi cfg.episodeLen start)[i]? = some cur →
+      tx'.latent cur = cfg.tx.latent cur ∧ tx'.nonlatent cur = cfg.tx.nonlatent cur) :
+    SameButPending (envReset { cfg with tx := tx' } lo hi start clock) (envReset cfg lo hi start clock) ∧
+    (runEnv pw lg { cfg with tx := tx' } (envReset { cfg with tx := tx' } lo hi start clock) acts).1 =
+      (runEnv pw lg cfg (envReset cfg lo hi start clock) acts).1 ∧
+    SameButPending (runEnv pw lg { cfg with tx := tx' } (envReset { cfg with tx := tx' } lo hi start clock) acts).2
+      (runEnv pw lg cfg (envReset cfg lo hi start clock) acts).2 := by
+  obtain ⟨r1, r2⟩ := reset_no_lookahead cfg tx' lo hi start clock hsteps hfirst
+  refine ⟨r1, ?_⟩
+  cases acts with
+  | nil => exact ⟨rfl, r1⟩
+  | cons a rest =>
+      simp only [List.length_cons] at hlen
+      rw [r2 (hb 1 (by omega))]
+      obtain ⟨c1, c2, c3⟩ := reset_cursor cfg lo hi start clock
+      apply run_no_lookahead pw lg cfg tx' n (a :: rest) (envReset cfg lo hi start clock) c3
+      · simp only [List.length_cons]; omega
+      · rw [c1]; exact hb
+
+/-- the same, from the streams themselves: same grid, latency and reset settings, the same events stamped
+    `≤ t` (events stamped later may differ in any way that keeps the episode's timesteps), and a run that
+    lands on timesteps `≤ t` only -/
+theorem episode_no_lookahead_streams (pw : α → α → α) (lg : α → α) (cfg : EnvCfg α) (tx' : TxCfg (Payload α))
+    (lo hi : Time) (start : Nat) (clock : Option Time) (n : Nat) (acts : List (Action α)) (t : Time)
+    (hlen : acts.length ≤ n) (ht : t ∈ cfg.tx.grid)
+    (hgrid : tx'.timesteps = cfg.tx.timesteps) (hlat : tx'.latency = cfg.tx.latency)
+    (hmk : tx'.markov = cfg.tx.markov) (hwu : tx'.warmup = cfg.tx.warmup)
+    (hev : cfg.tx.events.filter (fun e => decide (e.time ≤ t)) = tx'.events.filter (fun e => decide (e.time ≤ t)))
+    (hsteps : tx'.episodeSteps lo hi cfg.episodeLen start = cfg.tx.episodeSteps lo hi cfg.episodeLen start)
+    (hle : ∀ i, i ≤ n → ∀ cur, (cfg.tx.episodeSteps lo hi cfg.episodeLen start)[i]? = some cur → cur ≤ t) :
+    (runEnv pw lg { cfg with tx := tx' } (envReset { cfg with tx := tx' } lo hi start clock) acts).1 =
+      (runEnv pw lg cfg (envReset cfg lo hi start clock) acts).1 ∧
+    SameButPending (runEnv pw lg { cfg with tx := tx' } (envReset { cfg with tx := tx' } lo hi start clock) acts).2
+      (runEnv pw lg cfg (envReset cfg lo hi start clock) acts).2 := by
+  have hgr : tx'.grid = cfg.tx.grid := by unfold TxCfg.grid; rw [hgrid]
+  have hbat : ∀ g, g ∈ cfg.tx.grid → g ≤ t →
+      tx'.latent g = cfg.tx.latent g ∧ tx'.nonlatent g = cfg.tx.nonlatent g := by
+    intro g hg hgt
+    obtain ⟨e1, e2⟩ := batches_depend_on_past cfg.tx tx' t ht hgrid hlat hmk hev g hg hgt
+    exact ⟨e1.symm, e2.symm⟩
+  have hmem : ∀ g, g ∈ cfg.tx.episodeSteps lo hi cfg.episodeLen start → g ∈ cfg.tx.grid := by
+    intro g hg
+    have hsub : (cfg.tx.episodeSteps lo hi cfg.episodeLen start).Sublist (cfg.tx.foldSteps lo hi) := by
+      unfold TxCfg.episodeSteps
+      cases cfg.episodeLen with
+      | none => exact List.Sublist.refl _
+      | some L => exact (List.take_sublist _ _).trans (List.drop_sublist _ _)
+    have h1 := hsub.subset hg
+    unfold TxCfg.foldSteps at h1
+    have h2 := (List.mem_filter.mp h1).1
+    unfold TxCfg.eventSteps at h2
+    exact (List.mem_filter.mp h2).1
+  have hb : ∀ i, i ≤ n → ∀ cur, (cfg.tx.episodeSteps lo hi cfg.episodeLen start)[i]? = some cur →
+      tx'.latent cur = cfg.tx.latent cur ∧ tx'.nonlatent cur = cfg.tx.nonlatent cur := by
+    intro i hi cur hcur
+    exact hbat cur (hmem cur (List.mem_of_getElem? hcur)) (hle i hi cur hcur)
+  have hfirst : ∀ cur, (cfg.tx.episodeSteps lo hi cfg.episodeLen start)[0]? = some cur →
+      tx'.firstBatch cur = cfg.tx.firstBatch cur := by
+    intro cur hcur
+    have hct := hle 0 (Nat.zero_le _) cur hcur
+    unfold TxCfg.firstBatch
+    rw [hmk, hwu, hgr]
+    split_ifs
+    · obtain ⟨e1, e2⟩ := hb 0 (Nat.zero_le _) cur hcur
+      rw [e1, e2]
+    · simp only [Prod.mk.injEq, true_and]
+      apply List.flatMap_congr
+      intro g hg
+      have hg' := List.mem_filter.mp hg
+      have hgc : g ≤ cur := by
+        have := hg'.2
+        simp only [Bool.and_eq_true, decide_eq_true_eq] at this
+        exact this.2
+      obtain ⟨e1, e2⟩ := hbat g hg'.1 (le_trans hgc hct)
+      rw [e1, e2]
+  exact (episode_no_lookahead pw lg cfg tx' lo hi start clock n acts hlen hsteps hfirst hb).2
+
+end
+
+/-! ### the premises are satisfiable: two streams that differ after the cut -/
+section NonVacuity
+
+private def cfgA : EnvCfg Int :=
+  { world := { spec := fun _ => { mult := 1, cashReq := 1, mr := 0 }, fixed := 0, prop := 0, markup := 0,
+               rateKey := "RATE", eps := 0 }
+    deposit := 100
+    tx := { timesteps := [0, 10, 20, 30]
+            events := [⟨0, .market (.quote "A" 0 (some 10) (some 10))⟩, ⟨10, .market (.quote "A" 10 (some 11) (some 11))⟩,
+                       ⟨20, .market (.quote "A" 20 (some 12) (some 12))⟩, ⟨30, .market (.quote "A" 30 (some 13) (some 13))⟩] }
+    space := { keys := ["A"], kind := .box 0 1, margin := 0 }
+    reward := .pnl }
+
+/-- the same stream with the quotes stamped after `t = 10` altered -/
+private def txB : TxCfg (Payload Int) :=
+  { timesteps := [0, 10, 20, 30]
+    events := [⟨0, .market (.quote "A" 0 (some 10) (some 10))⟩, ⟨10, .market (.quote "A" 10 (some 11) (some 11))⟩,
+               ⟨20, .market (.quote "A" 20 (some 50) (some 51))⟩, ⟨30, .market (.quote "A" 30 (some 1) (some 2))⟩] }
+
+/-- `episode_no_lookahead_streams` applies to them (cut `t = 10`, one step), and its conclusion is not trivial:
+    the two runs do differ in the batches pre-fetched for the timestep after the cut -/
+example :
+    (runEnv (fun x _ => x) id { cfgA with tx := txB } (envReset { cfgA with tx := txB } 0 30 0 none) [.vec [some 1]]).1 =
+      (runEnv (fun x _ => x) id cfgA (envReset cfgA 0 30 0 none) [.vec [some 1]]).1 ∧
+    (runEnv (fun x _ => x) id { cfgA with tx := txB } (envReset { cfgA with tx := txB } 0 30 0 none) [.vec [some 1]]).2.pendNon ≠
+      (runEnv (fun x _ => x) id cfgA (envReset cfgA 0 30 0 none) [.vec [some 1]]).2.pendNon := by
+  refine ⟨(episode_no_lookahead_streams (fun x _ => x) id cfgA txB 0 30 0 none 1 [.vec [some 1]] 10 (by simp)
+    (by decide +kernel) rfl rfl rfl rfl rfl (by decide +kernel) ?_).1, ?_⟩
+  · intro i hi cur hcur
+    have h : cfgA.tx.episodeSteps 0 30 cfgA.episodeLen 0 = [0, 10, 20, 30] := by decide +kernel
+    rw [h] at hcur
+    obtain rfl | rfl : i = 0 ∨ i = 1 := by omega
+    · simp at hcur; subst hcur; decide
+    · simp at hcur; subst hcur; decide
+  · intro h
+    have := congrArg (List.map fun e : TEvent (Payload Int) =>
+      match e.payload with | .market (.quote _ _ b _) => b | _ => none) h
+    revert this
+    decide +kernel
+
+end NonVacuity
+
+section
+variable {α : Type}
 end
 end TV
